@@ -349,39 +349,42 @@ func c11R1(p *Prog, r *Report) {
 		}
 	}
 	r.Count("codec_factories", n)
-	// resolver cache discipline in the direct packer
-	up := p.Func("direct", "DirectPacketClientPacker", "updateDomainIPCache")
+	// resolver cache discipline in the direct packer, on PackInPlace with its helper expanded:
+	// the two cache fields are written only past a successful lookup, and the cached address is
+	// not read on any path that continues from a failed one
+	pk := p.Inlined(p.Func("direct", "DirectPacketClientPacker", "PackInPlace"))
 	var res *CallSite
-	for _, cs := range up.AllCalls() {
-		if cs.Fn != nil && strings.HasPrefix(cs.Fn.Name(), "ResolveIP") {
+	nRes := 0
+	for _, cs := range pk.AllCalls() {
+		if cs.Fn != nil && strings.HasPrefix(cs.Fn.Name(), "ResolveIP") && namedTypeName(recvTypeOf(cs.Fn)) == "Addr" {
 			c := cs
 			res = &c
+			nRes++
 		}
 	}
-	if res == nil {
-		r.Fail(rule, "direct.(*DirectPacketClientPacker).updateDomainIPCache:lookup", p.posStr(up.Body.Pos()), "no lookup found")
+	const pre = "direct.(*DirectPacketClientPacker).PackInPlace:"
+	if res == nil || nRes != 1 {
+		r.Fail(rule, pre+"lookup", p.posStr(pk.Body.Pos()), fmt.Sprintf("expected one address lookup, found %d", nRes))
 	} else {
 		nW := 0
-		for _, fa := range up.FieldAccesses(mp("direct"), "DirectPacketClientPacker", map[string]bool{"cachedDomain": true, "cachedDomainIP": true}) {
+		written := map[string]bool{}
+		for _, fa := range pk.FieldAccesses(mp("direct"), "DirectPacketClientPacker", map[string]bool{"cachedDomain": true, "cachedDomainIP": true}) {
 			if !fa.Write {
 				continue
 			}
 			nW++
-			r.Check(res.SuccessGuards(fa.V), rule, "direct.(*DirectPacketClientPacker).updateDomainIPCache:"+fa.Field.Name()+"-after-lookup-ok", p.posStr(fa.Sel.Pos()), "written only on the lookup's err == nil edge", "the cache field "+fa.Field.Name()+" is written before the lookup succeeded: after a failed lookup the cache names one domain but holds another domain's address, and later datagrams for it go to the wrong host")
+			written[fa.Field.Name()] = true
+			r.Check(res.SuccessGuards(fa.V), rule, pre+fa.Field.Name()+"-after-lookup-ok", p.posStr(fa.Sel.Pos()), "written only on the lookup's err == nil edge", "the cache field "+fa.Field.Name()+" is written before the lookup succeeded: after a failed lookup the cache names one domain but holds another domain's address, and later datagrams for it go to the wrong host")
 		}
-		r.Check(nW == 2, rule, "direct.(*DirectPacketClientPacker).updateDomainIPCache:key-and-value", p.posStr(up.Body.Pos()), "domain and address are both updated", fmt.Sprintf("%d of the two cache fields are updated", nW))
-		// the value stored is the lookup's result and the key is the looked-up domain
-	}
-	// PackInPlace uses the cached IP only after a successful update, and the target's own port
-	pk := p.Func("direct", "DirectPacketClientPacker", "PackInPlace")
-	for _, fa := range pk.FieldAccesses(mp("direct"), "DirectPacketClientPacker", map[string]bool{"cachedDomainIP": true}) {
-		ok := false
-		for _, cs := range pk.CallsTo(isFn(mp("direct"), "DirectPacketClientPacker", "updateDomainIPCache")) {
-			if cs.SuccessGuards(fa.V) {
-				ok = true
+		r.Check(nW == 2 && len(written) == 2, rule, pre+"key-and-value", p.posStr(pk.Body.Pos()), "domain and address are both updated", fmt.Sprintf("%d of the two cache fields are updated", len(written)))
+		fe := res.ResultEdges(-1, WantNonNil)
+		after := pk.G.ReachFromEdges(fe, nil, nil)
+		for _, fa := range pk.FieldAccesses(mp("direct"), "DirectPacketClientPacker", map[string]bool{"cachedDomainIP": true}) {
+			if fa.Write {
+				continue
 			}
+			r.Check(len(fe) > 0 && !after[fa.V], rule, pre+"cached-ip-after-update", p.posStr(fa.Sel.Pos()), "the cached address is not read on a path that continues from a failed lookup", "the cached address is used although the lookup for this packet's target failed")
 		}
-		r.Check(ok, rule, "direct.(*DirectPacketClientPacker).PackInPlace:cached-ip-after-update", p.posStr(fa.Sel.Pos()), "the cached address is read only after updateDomainIPCache succeeded for this target", "the cached address is used without a successful cache update for this packet's target")
 	}
 	r.Floor(rule, 20)
 }
